@@ -1,6 +1,7 @@
 import Nstd.Json.LemmasStrip
 import Nstd.Json.LemmasParse
 import Nstd.Json.LemmasRT
+import Nstd.Json.LemmasAgree
 /-
   Property C15 (JSON: total, safe, round trip; stripComments removes exactly the comments).
   Only the property theorems and their non-vacuity examples live here.
@@ -25,6 +26,12 @@ theorem parse_total (buf : List Byte) (h : 0 ∈ buf) : parse buf ≠ .nofuel :=
 theorem parse_no_oob (buf : List Byte) (h : 0 ∈ buf) : parse buf ≠ .oob := by
   have := parse_safe buf h
   intro e; rw [e] at this; exact this
+
+/-- nothing behind the first NUL influences the result: `parse` of any buffer equals `parse` of
+    the exactly sized C string it holds (together with `parse_no_oob` on that exact buffer: the
+    bytes after the terminator are never read) -/
+theorem parse_reads_only_cstr (buf : List Byte) (h : 0 ∈ buf) : parse buf = parse (cstr buf ++ [0]) :=
+  parse_agree _ _ (agree_cstr buf h)
 
 /-- a reported syntax error carries the line and column of an offset inside the text
     (`off ≤ strlen`, i.e. at a byte of the text or at its terminator) -/
